@@ -85,6 +85,26 @@ let dispatch (fn : Stdlib.String.t) (args : v list) : v =
        | None -> L [I 2]
        | Some (Text t) -> L [I 0; of_str t]
        | Some (Undecodable e) -> L [I 1; of_str e])
+  | "pool_run", [tries; restart; evs] ->
+      let ev (x : v) : event =
+        (match x with
+         | L [I 0; r] -> Start (to_nat r)
+         | L [I 1; r] -> DeliverOk (to_nat r)
+         | L [I 2; r] -> DeliverBroken (to_nat r)
+         | L [I 3; p] -> Break (to_nat p)
+         | L [I 4; i] -> BeginShutdown (to_bool i)
+         | _ -> bad "event") in
+      let st = run (to_nat tries) (to_bool restart) (to_list ev evs) in
+      let of_rstate (s : rstate) : v =
+        (match s with
+         | NotStarted -> L [I 0]
+         | Waiting (a, p) -> L [I 1; of_nat a; of_nat p]
+         | Done OkDiff -> L [I 2; I 0]
+         | Done ErrBroken -> L [I 2; I 1]
+         | Done ErrShutdown -> L [I 2; I 2]) in
+      L [ of_opt of_nat st.current; of_list of_nat st.created; of_list of_nat st.shut; of_list of_nat st.killed;
+          of_list of_nat st.broken; of_list of_nat st.replaced; of_list (of_pair of_nat of_nat) st.submits;
+          of_nat st.quits; of_bool st.terminating; of_list (of_pair of_nat of_rstate) st.reqs ]
   | "cors_allow_origin", [conf; rh] ->
       of_opt of_str (cors_allow_origin (to_opt to_str conf) (to_dict rh))
   | "upstream_headers", [q; rh] -> of_dict (upstream_headers (to_dict q) (to_dict rh))
